@@ -302,6 +302,15 @@ def hostile_formulas():
         ('not', ('U', p, ('not', ('U', q, p)))),
         ('X', ('X', ('X', p))), ('F', ('and', p, ('X', p))),
         ('or', p, q, ('X', p)), ('and', p, q, ('G', q)),
+        ('not', ('X', ('U', p, q))), ('X', ('not', ('U', p, q))),
+        ('R', ('X', p), q), ('R', ('F', p), q), ('U', p, ('R', q, p)),
+        ('G', ('U', p, q)), ('F', ('R', p, q)), ('U', ('G', p), q),
+        ('R', ('U', p, q), ('X', q)), ('not', ('R', ('not', p), ('X', q))),
+        ('U', ('X', ('not', p)), ('not', ('X', q))),
+        ('imply', ('U', p, q), ('X', ('U', p, q))),
+        ('and', ('U', p, q), ('R', q, p)), ('or', ('G', p), ('X', ('G', q))),
+        ('not', ('or', ('X', p), ('U', q, ('X', p)))),
+        ('X', ('R', ('not', q), ('or', p, ('X', q)))),
     ]
 
 
